@@ -1,4 +1,4 @@
 SPECIFICATION Spec
-CONSTANTS MaxLen = 8 Variant = "doc"
-INVARIANTS Inv Belief
+CONSTANTS MaxLen = 10 Variant = "doc"
+INVARIANTS Inv Belief Protocol
 CHECK_DEADLOCK FALSE
